@@ -79,6 +79,57 @@ func mergedAndSplitTree(e crdt.Element) bool {
 	return false
 }
 
+// findingMergeIntoRemoved: a paragraph merge whose TARGET paragraph was removed
+// concurrently moves the source's children under a tombstone. When the target
+// is purged, the executing document unlinks it from the index tree but keeps the
+// moved-in children in Tree.NodeMapByID (they were not part of the subtree
+// registered at the removal): hidden state that no snapshot carries. A change
+// of a client that has not seen the merge yet still resolves them there (and
+// has no visible effect), while on BytesToSnapshot(SnapshotToBytes(d)) the same
+// change fails with "node not found". Minimal: c1 deletes p0, syncs; c0 (has not
+// seen it) merges p0 with p1, syncs; c1 deletes a character of the old p1; the
+// server collects at the minimum vector; c1's change applies to the server
+// document and fails on its snapshot. Trigger: a tree whose id map holds nodes
+// that are not in the index tree, or a node with MergedFrom under a removed parent.
+const findingMergeIntoRemoved = "F53"
+
+func mergedIntoRemovedParent(e crdt.Element) bool {
+	switch v := e.(type) {
+	case *crdt.Object:
+		for _, n := range v.RHTNodes() {
+			if mergedIntoRemovedParent(n.Element()) {
+				return true
+			}
+		}
+	case *crdt.Array:
+		for _, n := range v.RGATreeList().AllNodes() {
+			if n.Element() != nil && mergedIntoRemovedParent(n.Element()) {
+				return true
+			}
+		}
+	case *crdt.Tree:
+		inIndex := 0
+		var walk func(n *crdt.TreeNode) bool
+		walk = func(n *crdt.TreeNode) bool {
+			inIndex++
+			for _, c := range n.Index.Children(true) {
+				if c.Value.MergedFrom != nil && n.IsRemoved() {
+					return true
+				}
+				if walk(c.Value) {
+					return true
+				}
+			}
+			return false
+		}
+		if walk(v.Root()) {
+			return true
+		}
+		return v.NodeMapByID.Len() != inIndex
+	}
+	return false
+}
+
 // findingArraySetGC (upstream TODO in operations/array_set.go: "GC logic is
 // not implemented here"): ArraySet tombstones the element it replaces without
 // registering it for garbage collection, so a document that executed the
@@ -102,6 +153,8 @@ func snapshotExclusion(doc *document.InternalDocument) string {
 		return findingTextAttr
 	case mergedAndSplitTree(doc.RootObject()):
 		return findingMergeSplit
+	case mergedIntoRemovedParent(doc.RootObject()):
+		return findingMergeIntoRemoved
 	case leakedGarbage(doc):
 		return findingGarbageLeak
 	}
